@@ -491,3 +491,16 @@ def swap_heavy_program(draw, min_n=3, max_n=6, max_ops=12):
         else:
             ops.append(draw(primitive(n, True)))
     return {"n": n, "ops": ops}
+
+
+@st.composite
+def fully_heralded_program(draw, max_n=3, lossy=True, max_photons=1):
+    """Every mode of the circuit is heralded: the user-visible state is empty."""
+    prog = draw(flat_program(min_n=1, max_n=max_n, max_ops=5, lossy=lossy))
+    n = prog["n"]
+    outs = list(draw(st.permutations(range(n))))
+    order = list(draw(st.permutations(range(n))))
+    ops = list(prog["ops"])
+    for i in order:
+        ops.insert(draw(st.integers(0, len(ops))), ["herald", draw(st.integers(0, max_photons)), i, outs[i]])
+    return {"n": n, "ops": ops}
